@@ -40,7 +40,8 @@ Not modelled at all (fidelity limits, also in the harness ASSUMPTIONS):
   * reference identity: in the model of the theorems every assignment installs a FRESH reference
     (named by the id of its first task); assigning the SAME function object again (Python's
     still-current check is `refs.get(pname) is not ref`) exists in Async/ModelExt.lean only
-    (`again`), like `obj.param.trigger` (`trigC`, `trigP`) — correspondence and oracle, no theorem;
+    (`again`), like `obj.param.trigger` (`trigC`, `trigP`) and a synchronous reference on the same
+    object (`assignSync`) — correspondence and oracle, no theorem;
   * constructor-time references (`initialized=False`: `_async_ref` re-scheduling itself,
     `_resolve_ref` not installing the link): the object is initialised before the first event;
   * awaitables that raise (`Skip` included), `set_exception` / cancellation of the hand-made future
